@@ -22,6 +22,10 @@ func main() {
 		"method / id / result / error / jsonrpc / params as object member names at depth 1-4 and as string values, whole request / response / error / notification look-alikes, " +
 		"and the literal texts \"method\": / \"id\": inside strings and member names - in structured content, _meta, every string field of content items, prompts and resources, " +
 		"handler errors and the tool / prompt / resource descriptors (the random generators draw from the same vocabulary). " +
+		"Printf material (%, %d, %s, %v, %%, 100%, %!, %[1]d, %!d(MISSING), %+v, %x, %5.2f, %*d, a trailing %, % + non-ASCII, ...) is a string class of its own and a fixed always-run set in the same positions " +
+		"(content texts, names, descriptions, URIs, _meta and structured-content strings and member names, argument names and values); a handler's Go error - every string class, the keyword and printf sets, random strings; " +
+		"tools/call (also a tool whose name is printf material), prompts/get, resources/read (single and multi handler) on every mode - must reach the caller as EXACTLY the library's fixed wrapper around the message " +
+		"(content:<mode>:handler-error-altered:<op>), and the arguments a caller passes must be what the handler sees (content:<mode>:argument-altered:<op>). " +
 		"Every end-to-end call is bounded (context deadline 8 s + 6 s/MiB, plus a watchdog): a call that does not return is the failing input content:<transport>:call-never-returns:<op> " +
 		"(with the value the handler returned and a control on a fresh session), after which the env reconnects and goes on; repeated timeouts shorten the ceiling and finally skip the transport (counted). " +
 		"non-trivial = a distinct case in which the decoder (or the end-to-end call) accepted the value",
